@@ -199,6 +199,40 @@ theorem est_unanswered_no_trace (st : State) (addr : String) (seq : BitVec 24) (
 theorem assoc_unanswered_no_trace (st : State) (addr : String) (seq : BitVec 24) (env : Env) (c : Ctx) :
     handleAssoc st addr seq none env c = (st, c) := by simp [handleAssoc]
 
+/-- **a first copy of a Heartbeat Request is always answered**, to the sender, with its sequence number -/
+theorem hb_answered (st : State) (addr : String) (seq : BitVec 24) (env : Env) (h : alGet st.rx (addr, seq) = none) :
+    (step st (.request addr seq .heartbeat) env).2 = [Out.send addr { kind := .hbRsp, seq := seq, recov := true }] := by
+  unfold step
+  simp only [h, handleReq, State.sendRsp]
+  simp [Ctx.emit]
+
+/-- **a first copy of an Association Setup Request that names its node is always answered** — whatever the node's
+    history (first association, re-association of a node with sessions, any driver answers while they are withdrawn):
+    the last output is the accepting response to the sender, with its sequence number, node id and recovery time stamp -/
+theorem assoc_answered (st : State) (addr : String) (seq : BitVec 24) (nid : NodeId) (env : Env)
+    (h : alGet st.rx (addr, seq) = none) :
+    (step st (.request addr seq (.assoc (some nid))) env).2.getLast? =
+      some (Out.send addr { kind := .assocRsp, seq := seq, cause := some causeAccepted, nodeID := true, recov := true }) := by
+  unfold step
+  simp only [h, handleReq, handleAssoc]
+  -- the state just before the response still holds the receive transaction created for this request
+  have key : ∀ (st2 : State) (c1 : Ctx), alGet st2.rx (addr, seq) = some {} →
+      (st2.sendRsp addr { kind := .assocRsp, seq := seq, cause := some causeAccepted, nodeID := true, recov := true } c1).2.outs.getLast? =
+        some (Out.send addr { kind := .assocRsp, seq := seq, cause := some causeAccepted, nodeID := true, recov := true }) := by
+    intro st2 c1 hrx
+    simp [State.sendRsp, hrx, Ctx.emit]
+  have hrx0 : alGet (alSet st.rx (addr, seq) ({} : Rx)) (addr, seq) = some {} := alGet_alSet_self _ _ _
+  cases hn : ({ st with rx := alSet st.rx (addr, seq) {} } : State).nodeOf nid with
+  | none =>
+    simp only []
+    exact key _ _ hrx0
+  | some hd =>
+    simp only []
+    have hs := (resetNode_same ({ st with rx := alSet st.rx (addr, seq) {} } : State) hd env { pending := env.pending }).1
+    apply key
+    show alGet (({ st with rx := alSet st.rx (addr, seq) {} } : State).resetNode hd env { pending := env.pending }).1.rx (addr, seq) = some {}
+    rw [hs]; exact hrx0
+
 /-- an accepted establishment returns a UP F-SEID that from then on addresses the new session, which carries
     the control-plane SEID the peer chose (uses the table invariant of C04) -/
 theorem est_fseid_resolves (st : State) (wf : C04.TableWF st.lnode) (hroom : st.lnode.sess.length + 1 < 2 ^ 64)
